@@ -7,3 +7,6 @@ import Proofs.C14
 #print axioms TW.C14.initial_nonempty
 #print axioms TW.C14.no_expand_no_growth
 #print axioms TW.C14.failed_group_appended_only_without_overlap
+#print axioms TW.C14.aligned_image_agrees_with_reference
+#print axioms TW.C14.aligned_images_agree_fits
+#print axioms TW.C14.aligned_images_agree_mixed
